@@ -177,7 +177,7 @@ impl Check for Convergence {
             let s = rng.usize_below(n_src);
             let o = rng.usize_below(n_obs);
             match rng.weighted(&[40, 16, if en_win { 14 } else { 0 }, 4, if en_down { 5 } else { 0 }, 7, if en_rr { 3 } else { 0 }, 3, if xpol == 2 { 5 } else { 0 }]) {
-                8 => ops.push(jarr!["pol", rng.below(2), rng.coin()]),
+                8 => ops.push(jarr!["pol", rng.below(3), rng.coin(), o]),
                 0 => {
                     let mut spec = gen_rspec(&mut rng, src_roles[s], asn_for(src_roles[s], s));
                     if xpol != 0 && rng.chance(1, 3) {
@@ -248,7 +248,7 @@ impl Check for Convergence {
 
     fn info(&self) -> CheckInfo {
         CheckInfo {
-            rule: "1-3 source speakers (roles eBGP/iBGP/RR-client/RS-client/confed, optional add-path towards the DUT) and 1-2 observers (any role, send-max 1-3) on real sessions; history of announce / replace / withdraw / source crash (FIN, RST) / reconnect / route-refresh over 2-8 prefixes; in 3 of 5 runs a global export policy (reject community 65000:1, set MED on the rest) so that a replacement can make a route non-exportable, in 2 of 5 also export and import policies switched on and off during the history, each switch followed by the operator's soft reset (out towards the observers, in for the sources); the observer's receive window is opened and closed by the schedule, pipes have seeded latency, fragmentation and capacity, 1-3 shards. At check points: windows opened, quiescence, an identically configured twin connects and receives its initial dump; mirror(observer) must equal mirror(twin) (prefix, path id, attributes, next hop). non-trivial = at least one RIB change was delivered to an observer while its window was closed, or a check compared a non-empty mirror; distinct = hash of the seam-event sequence (which connection read/wrote how much, in order)".into(),
+            rule: "1-3 source speakers (roles eBGP/iBGP/RR-client/RS-client/confed, optional add-path towards the DUT) and 1-2 observers (any role, send-max 1-3) on real sessions; history of announce / replace / withdraw / source crash (FIN, RST) / reconnect / route-refresh over 2-8 prefixes; in 3 of 5 runs a global export policy (reject community 65000:1, set MED on the rest) so that a replacement can make a route non-exportable, in 2 of 5 also the global export policy, the global import policy and one observer's own export policy (and its twin's) added and deleted through the gRPC handlers during the history, each switch followed by the operator's soft reset (out towards the observers, in for the sources); the observer's receive window is opened and closed by the schedule, pipes have seeded latency, fragmentation and capacity, 1-3 shards. At check points: windows opened, quiescence, an identically configured twin connects and receives its initial dump; mirror(observer) must equal mirror(twin) (prefix, path id, attributes, next hop). non-trivial = at least one RIB change was delivered to an observer while its window was closed, or a check compared a non-empty mirror; distinct = hash of the seam-event sequence (which connection read/wrote how much, in order)".into(),
             components_real: vec!["accept_connection, PeerSession::{run,session_loop,run_select,rx_msg,rx_update,handle_prefix_update,do_route_refresh,on_established,flush_tx}".into(), "export::process_nlri_change, ExportMap, peer_tx::PendingTx".into(), "TableManager, table::Table".into(), "fsm::PeerFsm, packet::PeerCodec (both directions)".into(), "GrpcService::start_bgp".into()],
             components_stubbed: vec!["TCP, clock, listener/dispatch loop, remote speakers (scripted; decode with the repository codec negotiated from their side + an independent frame walker)".into()],
             assumptions: vec!["observers and twins announce nothing, so echo suppression cannot differ between them".into(), "a mirror bug shared by encoder and decoder is invisible (framing is checked independently)".into()],
@@ -289,18 +289,34 @@ async fn run(case: Json, tol: Tolerate) -> Outcome {
     let pipe = |k: usize| -> PipeOpts { pipes.get(k).cloned().unwrap_or_default() };
     let mut t = Topo::new(&wcfg, nodes, vec![Family::IPV4], hold).await;
     let xpol = case.i("xpol", 0);
-    let policy_of = |dir: table::PolicyDirection| -> Arc<table::PolicyAssignment> {
-        let mut pt = table::PolicyTable::new();
-        pt.add_defined_set(table::DefinedSetConfig::Community { name: "marked".into(), patterns: vec!["65000:1".into()] }).unwrap();
-        pt.add_statement("drop-marked", vec![table::ConditionConfig::CommunitySet("marked".into(), table::MatchOption::Any)], Some(table::Disposition::Reject), table::Actions::default()).unwrap();
-        let mut a = table::Actions::default();
-        a.med = Some(table::MedAction { action_type: table::MedActionType::Replace, value: 77 });
-        pt.add_statement("mark", vec![], None, a).unwrap();
-        pt.add_policy("p", vec!["drop-marked".into(), "mark".into()]).unwrap();
-        pt.add_assignment("global", dir, table::Disposition::Accept, vec!["p".into()]).unwrap().1
+    // Policies are configured the way an operator does it, through the gRPC handlers: a community
+    // set, two statements (reject routes carrying 65000:1; MED 77 on the rest) and a policy made of
+    // them; assignments are added and deleted later.
+    let assignment_msg = |name: &str, import: bool| api::PolicyAssignment {
+        name: name.to_string(),
+        direction: if import { api::PolicyDirection::Import as i32 } else { api::PolicyDirection::Export as i32 },
+        policies: vec![api::Policy { name: "p".into(), statements: vec![] }],
+        default_action: api::RouteAction::Accept as i32,
     };
     if xpol != 0 {
-        t.w.tables.export_policy.store(Some(policy_of(table::PolicyDirection::Export)));
+        let g = &t.w.grpc;
+        g.add_defined_set(tonic::Request::new(api::AddDefinedSetRequest { defined_set: Some(api::DefinedSet { defined_type: api::DefinedType::Community as i32, name: "marked".into(), list: vec!["65000:1".into()], prefixes: vec![] }), replace: false })).await.expect("add_defined_set");
+        g.add_statement(tonic::Request::new(api::AddStatementRequest {
+            statement: Some(api::Statement {
+                name: "drop-marked".into(),
+                conditions: Some(api::Conditions { community_set: Some(api::MatchSet { r#type: api::match_set::Type::Any as i32, name: "marked".into() }), rpki_result: api::ValidationState::None as i32, ..Default::default() }),
+                actions: Some(api::Actions { route_action: api::RouteAction::Reject as i32, ..Default::default() }),
+            }),
+        }))
+        .await
+        .expect("add_statement drop-marked");
+        g.add_statement(tonic::Request::new(api::AddStatementRequest {
+            statement: Some(api::Statement { name: "mark".into(), conditions: Some(api::Conditions { rpki_result: api::ValidationState::None as i32, ..Default::default() }), actions: Some(api::Actions { med: Some(api::MedAction { r#type: api::med_action::Type::Replace as i32, value: 77 }), ..Default::default() }) }),
+        }))
+        .await
+        .expect("add_statement mark");
+        g.add_policy(tonic::Request::new(api::AddPolicyRequest { policy: Some(api::Policy { name: "p".into(), statements: vec![api::Statement { name: "drop-marked".into(), ..Default::default() }, api::Statement { name: "mark".into(), ..Default::default() }] }), refer_existing_statements: true })).await.expect("add_policy");
+        g.add_policy_assignment(tonic::Request::new(api::AddPolicyAssignmentRequest { assignment: Some(assignment_msg("global", false)) })).await.expect("add_policy_assignment");
     }
     for i in 0..n_src + n_obs {
         t.connect(i, &pipe(2 * i), &pipe(2 * i + 1)).await;
@@ -411,19 +427,36 @@ async fn run(case: Json, tol: Tolerate) -> Outcome {
                 t.w.quiesce().await;
             }
             "pol" => {
-                // the operator switches the global export (0) or import (1) policy on or off and issues
-                // the soft reset that goes with it: out towards every observer, in for every source
-                let import = op.at(1).as_u64() == 1;
+                // The operator adds or deletes a policy assignment through the gRPC handlers and issues
+                // the soft reset that goes with it: 0 = global export (soft reset OUT towards every
+                // observer), 1 = global import (soft reset IN for every source), 2 = the export policy
+                // of one observer and of its twin (soft reset OUT towards that observer).
+                let dir = op.at(1).as_u64();
                 let on = op.at(2).as_bool();
-                let dir = if import { table::PolicyDirection::Import } else { table::PolicyDirection::Export };
-                let slot = if import { &t.w.tables.import_policy } else { &t.w.tables.export_policy };
-                slot.store(if on { Some(policy_of(dir)) } else { None });
-                let targets: Vec<IpAddr> = if import { (0..n_src).map(|i| t.nodes[i].cfg.addr).collect() } else { (n_src..n_src + n_obs).map(|i| t.nodes[i].cfg.addr).collect() };
+                let import = dir == 1;
+                let o = n_src + op.at(3).as_usize() % n_obs;
+                let names: Vec<String> = if dir == 2 { vec![t.nodes[o].cfg.addr.to_string(), t.nodes[o + n_obs].cfg.addr.to_string()] } else { vec!["global".to_string()] };
+                for name in &names {
+                    if on {
+                        let _ = t.w.grpc.add_policy_assignment(tonic::Request::new(api::AddPolicyAssignmentRequest { assignment: Some(assignment_msg(name, import)) })).await;
+                    } else {
+                        let _ = t.w.grpc.delete_policy_assignment(tonic::Request::new(api::DeletePolicyAssignmentRequest { assignment: Some(assignment_msg(name, import)), all: true })).await;
+                    }
+                }
+                let targets: Vec<IpAddr> = match dir {
+                    1 => (0..n_src).map(|i| t.nodes[i].cfg.addr).collect(),
+                    2 => vec![t.nodes[o].cfg.addr],
+                    _ => (n_src..n_src + n_obs).map(|i| t.nodes[i].cfg.addr).collect(),
+                };
                 for a in targets {
                     let req = api::ResetPeerRequest { address: a.to_string(), soft: true, direction: if import { api::reset_peer_request::Direction::In as i32 } else { api::reset_peer_request::Direction::Out as i32 }, ..Default::default() };
                     let _ = t.w.grpc.reset_peer(tonic::Request::new(req)).await;
                 }
-                out.hit(if import { "op.import-policy-switched+soft-reset-in" } else { "op.export-policy-switched+soft-reset-out" });
+                out.hit(match dir {
+                    1 => "op.import-policy-switched+soft-reset-in",
+                    2 => "op.neighbour-export-policy-switched+soft-reset-out",
+                    _ => "op.export-policy-switched+soft-reset-out",
+                });
                 t.w.quiesce().await;
             }
             "rr" => {
